@@ -1075,24 +1075,31 @@ func canonNum(d NumDesc) *big.Float { return canonFloat(d.Float()) }
 // turn out to have any length from max(1, k) (every unknown coalesces) to k+u; its reported range
 // and any refinement of it must never exclude a length or a concrete set it admits.
 func simC05KnownSets(c *Ctx) {
-	num := c.G(2) == 1
+	mode := c.G(3) // 0 strings, 1 numbers, 2 tuples (whose members may be known in part)
 	k := c.G(4)
 	u := 1 + c.G(3)
 	var members []cty.Value
 	var known []cty.Value
-	for i := 0; i < k; i++ {
-		var m cty.Value
-		if num {
-			m = cty.NumberIntVal(int64(10 + i))
-		} else {
-			m = cty.StringVal(string(rune('a' + i)))
+	ety := cty.String
+	switch mode {
+	case 1:
+		ety = cty.Number
+	case 2:
+		ety = cty.Tuple([]cty.Type{cty.String, cty.Number})
+	}
+	mk := func(name string, n int64) cty.Value {
+		switch mode {
+		case 1:
+			return cty.NumberIntVal(n)
+		case 2:
+			return cty.TupleVal([]cty.Value{cty.StringVal(name), cty.NumberIntVal(n)})
 		}
+		return cty.StringVal(name)
+	}
+	for i := 0; i < k; i++ {
+		m := mk(string(rune('a'+i)), int64(10+i))
 		known = append(known, m)
 		members = append(members, m)
-	}
-	ety := cty.String
-	if num {
-		ety = cty.Number
 	}
 	for i := 0; i < u; i++ {
 		un := cty.UnknownVal(ety)
@@ -1100,10 +1107,17 @@ func simC05KnownSets(c *Ctx) {
 		case 1:
 			un = un.RefineNotNull()
 		case 2:
-			if num {
+			switch mode {
+			case 1:
 				un = un.Refine().NumberRangeLowerBound(cty.NumberIntVal(int64(i)), true).NewValue()
-			} else {
+			case 0:
 				un = un.Refine().StringPrefixFull("p").NewValue()
+			default:
+				// known in part: it may still turn out to equal a wholly known member
+				un = cty.TupleVal([]cty.Value{cty.StringVal(string(rune('a' + i))), cty.UnknownVal(cty.Number)})
+				if c.G(2) == 1 {
+					un = cty.TupleVal([]cty.Value{cty.UnknownVal(cty.String), cty.NumberIntVal(int64(10 + i))})
+				}
 			}
 		}
 		members = append(members, un)
@@ -1120,7 +1134,7 @@ func simC05KnownSets(c *Ctx) {
 		minPossible = 1
 	}
 	c.Event("known set of %d known and %d unknown members (%d stored): %s", k, u, n, safeGoString(s))
-	c.AddShape(fmt.Sprintf("knownset k=%d u=%d num=%t", k, u, num))
+	c.AddShape(fmt.Sprintf("knownset k=%d u=%d mode=%d", k, u, mode))
 	// concrete sets the value may turn out to be: the known members plus 0..u others
 	var cands []cty.Value
 	for extra := 0; k+extra <= n; extra++ {
@@ -1129,11 +1143,7 @@ func simC05KnownSets(c *Ctx) {
 		}
 		vals := append([]cty.Value(nil), known...)
 		for e := 0; e < extra; e++ {
-			if num {
-				vals = append(vals, cty.NumberIntVal(int64(100+e)))
-			} else {
-				vals = append(vals, cty.StringVal(fmt.Sprintf("px%d", e)))
-			}
+			vals = append(vals, mk(fmt.Sprintf("px%d", e), int64(100+e)))
 		}
 		cands = append(cands, cty.SetVal(vals))
 	}
@@ -1196,6 +1206,18 @@ func simC05KnownSets(c *Ctx) {
 				c.Fail("C05", "rejected-consistent", "rejected:known-set", "%s on a known set that may have %d..%d members was rejected (panic: %v)\nvalue: %s", name, minPossible, n, pan, safeGoString(s))
 			}
 			c.Fired("contradiction.rejected")
+			continue
+		}
+		if !consistent {
+			// a bound no length the set may turn out to have satisfies contradicts the known value
+			sig := "accepted:known-set:lower-above-stored"
+			if kind == 0 {
+				sig = "accepted:known-set:upper-below-known-members"
+				if x < 1 {
+					sig = "accepted:known-set:upper-below-one"
+				}
+			}
+			c.Fail("C05", "accepted-contradiction", sig, "%s on a known set that may only have %d..%d members (%d wholly known distinct members, %d stored) was accepted\nvalue: %s", name, minPossible, n, k, n, safeGoString(s))
 			continue
 		}
 		if !res.RawEquals(s) {
